@@ -5,3 +5,4 @@ import SimVerif.Props.C14
 import SimVerif.Props.C20
 import SimVerif.Props.C17
 import SimVerif.Props.C16
+import SimVerif.Props.C19
